@@ -10,6 +10,7 @@ import AtsProofs.C09b
 import AtsProofs.C14
 import AtsProofs.C06
 import AtsProofs.Claims.C08
+import AtsProofs.C17
 namespace Ats.Proofs
 open Ats Ats.Spec
 
